@@ -6,7 +6,7 @@ REPO = os.environ.get('VERIF_REPO', '/repo')
 
 def build(driver, sources, extra=()):
     """compile replay/<driver> with the listed /repo sources (relative paths); returns path of the binary"""
-    outdir = os.path.join(ROOT, 'build', 'replay')
+    outdir = os.path.join(os.environ.get('VERIF_BUILD') or os.path.join(ROOT, 'build'), 'replay')
     os.makedirs(outdir, exist_ok=True)
     h = hashlib.sha256()
     files = [os.path.join(ROOT, 'replay', driver)] + [os.path.join(REPO, s) for s in sources]
